@@ -49,6 +49,22 @@ VALS = {
 }
 
 
+# length-prefixed members whose inner construct has a size of its own: an accepted (mutated) input may carry a LONGER region
+# than the inner construct needs; what a lazy parse skips must be the region, as the eager parse does
+STRETCH = [
+    ('Prefixed(Byte, Bytes(2))', lambda k: bytes([2 + k]) + b'\xaa\xbb' + b'\xcc' * k),
+    ('Prefixed(Byte, Int16ub)', lambda k: bytes([2 + k]) + b'\x01\x02' + b'\xcd' * k),
+    ('Prefixed(Int16ub, Struct("a"/Byte, "b"/Byte), includelength=True)', lambda k: (4 + k).to_bytes(2, 'big') + b'\x03\x04' + b'\xdd' * k),
+    ('Prefixed(VarInt, Array(2, Byte))', lambda k: bytes([2 + k]) + b'\x05\x06' + b'\xee' * k),
+    ('Prefixed(Byte, Padded(3, Byte))', lambda k: bytes([3 + k]) + b'\x07\x00\x00' + b'\xef' * k),
+]
+STRETCH_SHAPES = [
+    ('%s("m0"/{P}, "m1"/Byte)', lambda e: e + b'\x77', 2),
+    ('%s("m0"/Byte, "m1"/{P}, "m2"/{P}, "m3"/Int16ub)', lambda e: b'\x11' + e + e + b'\x22\x33', 4),
+    ('%s("m0"/Hex({P}), "m1"/Byte)', lambda e: e + b'\x78', 2),
+]
+
+
 def member_val(m, g, n, f):
     fn = VALS[m]
     return fn(g, n, f) if m in CTXSIZED else fn(g)
@@ -357,6 +373,23 @@ def run(tier, seed):
                     cases.append(dict(src=lazy, op='lazy', kw=kw, data=d, start=start, history=h))
                 cases.append(dict(src=lazy, op='parse', kw=kw, data=d, start=start))
             acc.check('lazy_rebuild', lazy, eager=eager, data=data, kw=kw, history=[i for i in range(cnt) if i % 2])
+    # ---- stretched length prefixes (mutated but accepted inputs) ----
+    for P, enc in STRETCH:
+        for k in (0, 1, 3):
+            for shape, wrap, nm in STRETCH_SHAPES:
+                if 'Hex(' in shape and ('Struct(' in P or 'Array(' in P or 'Padded(' in P):
+                    continue        # Hex displays integers, bytes and RawCopy results only
+                lazy, eager = (shape % 'LazyStruct').replace('{P}', P), (shape % 'Struct').replace('{P}', P)
+                d = wrap(enc(k))
+                for h in histories(rng, nm, 2, 2):
+                    acc.check('lazystruct', lazy, eager=eager, data=d, start=0, kw={}, history=h, mode=('index', 'name', 'attr', 'mixed')[len(h) % 4])
+                    cases.append(dict(src=lazy, op='lazy', kw={}, data=d, start=0, history=h))
+                cases.append(dict(src=lazy, op='parse', kw={}, data=d, start=0))
+            lazy, eager = 'LazyArray(2, %s)' % P, 'Array(2, %s)' % P
+            d = enc(k) + enc(0) + b'\x01'
+            for h in histories(rng, 2, 2, 1):
+                acc.check('lazyarray', lazy, eager=eager, data=d, start=0, kw={}, history=h, slices=[(None, None, None)])
+                cases.append(dict(src=lazy, op='lazy', kw={}, data=d, start=0, history=h))
     # ---- Lazy ----
     for el in elems + TAIL:
         if 'this._.n' in el:
